@@ -49,6 +49,7 @@ def _dims():
         "version": [1, 2, 2 ** 32 - 1, 0], "locktime": [0, 499999999, 2 ** 32 - 1],
         "trailing": [0, 1, 2, 3],
         "vout0": [0, 1, 2 ** 32 - 1], "value0": [5000000000, 0, 2 ** 64 - 1],
+        "spk0kind": ["filler", "pubkey33", "pubkey65", "p2pkh-text", "p2sh-text", "bech32-text", "bech32m-text"],
     }
 
 
